@@ -18,28 +18,33 @@ OWNKEYS = ("c16", "r8_state_keys", "C16.R8", "a component reads its run-time par
 EQUALITY = ("c07", "r7_individual_equality", "C07.R7", "two individuals are equal iff solution and objective are equal")
 INNER = ("c01", "r7_inner_state", "C01.R7", "a pushed scope is popped, and the caller's registry restored, on every exit of with_inner_state - also when the inner code fails")
 EVALUATORS = ("c06", "r2_evaluators", "C06.R2", "an evaluation writes f(its own solution) into every individual of the slice, evaluated before or not")
+LOOPS = ("c16", "r11_nested_loops", "C16.R11", "a loop counts its own passes on its own counter, also nested in a scope inside another loop")
+PROGRAM = ("c03", "r9_program_semantics", "C03.R9", "a configuration runs as the structured program it describes: phases, scopes opened and closed on every exit, branches taken once")
+TEMPLATES = ("c16", "r1_r2_r3_only", "C16.R1", "the shipped templates keep the population stack balanced and evaluated where objective values are read")
+TPARAMS = ("c16", "r14_template_parameters", "C16.R14", "templates use every required parameter component and evaluate under their own identifier")
+IDENT = ("c06", "r4_identifiers", "C06.R4", "the evaluation steps the builder appends name the evaluator of the requested identifier")
 EVALSTEP = ("c06", "r1_population_evaluator", "C06.R1", "the evaluation step hands the whole top population to the evaluator held under the component's own identifier")
 FIREFLY = ("c06", "r7_firefly", "C06.R7", "the firefly update re-evaluates every moved firefly with the evaluator held under its own identifier")
 
 DEPS = {
-    "C02": [REGISTRY, SUGAR, INNER],
+    "C02": [REGISTRY, SUGAR, INNER, PROGRAM],
     "C03": [REGISTRY, SCOPES, SUGAR],
     "C04": [SUGAR, REGISTRY],
-    "C05": [SUGAR, OWNKEYS, EVALSTEP, FIREFLY, REGISTRY],
+    "C05": [SUGAR, OWNKEYS, EVALSTEP, FIREFLY, REGISTRY, TPARAMS, IDENT],
     "C06": [REGISTRY, STACK, SUGAR, OWNKEYS],
-    "C07": [REGISTRY, STACK, SUGAR, OWNKEYS, EVALUATORS],
+    "C07": [REGISTRY, STACK, SUGAR, OWNKEYS, EVALUATORS, IDENT],
     "C08": [REGISTRY, SUGAR],
     "C10": [REGISTRY, SUGAR],
     "C11": [STACK, SUGAR, REGISTRY, EQUALITY],
     "C12": [STACK, SUGAR, REGISTRY],
-    "C13": [STACK, REGISTRY, SUGAR, OWNKEYS],
+    "C13": [STACK, REGISTRY, SUGAR, OWNKEYS, PROGRAM],
     "C14": [STACK, SUGAR, REGISTRY],
-    "C15": [REGISTRY, SUGAR],
+    "C15": [REGISTRY, SUGAR, LOOPS],
     "C16": [REGISTRY, STACK, ORDER, REQUIRE, EQUALITY, SUGAR],
     "C17": [STACK, REGISTRY, SUGAR, OWNKEYS],
-    "C18": [STACK, ORDER, REGISTRY, SUGAR, OWNKEYS],
-    "C19": [STACK, ORDER, REGISTRY, SUGAR, OWNKEYS, EVALUATORS],
-    "C20": [STACK, REGISTRY, EQUALITY, SUGAR, OWNKEYS],
+    "C18": [STACK, ORDER, REGISTRY, SUGAR, OWNKEYS, TPARAMS],
+    "C19": [STACK, ORDER, REGISTRY, SUGAR, OWNKEYS, EVALUATORS, IDENT],
+    "C20": [STACK, REGISTRY, EQUALITY, SUGAR, OWNKEYS, TEMPLATES],
 }
 
 
